@@ -490,7 +490,13 @@ func (p *StreamPool) newConnection(k key, s Stream, ts time.Time) (c *connection
 	}
 	index := len(p.free) - 1
 	c, p.free = p.free[index], p.free[:index]
+	// Another assembler may still hold a pointer to this recycled connection
+	// from its previous life and is about to lock it: reset it under its own
+	// lock. (Whoever holds the lock of a closed connection never waits for the
+	// pool lock, so taking it here cannot deadlock.)
+	c.mu.Lock()
 	c.reset(k, s, ts)
+	c.mu.Unlock()
 	return c
 }
 
@@ -508,11 +514,11 @@ func (p *StreamPool) getConnection(k key, end bool, ts time.Time) *connection {
 	s := p.factory.New(k[0], k[1])
 	verifYield("getConnection.created")
 	p.mu.Lock()
-	conn = p.newConnection(k, s, ts)
 	if conn2 := p.conns[k]; conn2 != nil {
 		p.mu.Unlock()
 		return conn2
 	}
+	conn = p.newConnection(k, s, ts)
 	p.conns[k] = conn
 	p.mu.Unlock()
 	return conn
@@ -564,7 +570,9 @@ func (a *Assembler) AssembleWithTimestamp(netFlow gopacket.Flow, t *layers.TCP, 
 		}
 		verifYield("Assemble.beforeConnLock")
 		conn.mu.Lock()
-		if !conn.closed {
+		// The connection may have been closed, and even recycled for another
+		// key, between the lookup and the lock: look it up again then.
+		if !conn.closed && conn.key == key {
 			break
 		}
 		conn.mu.Unlock()
